@@ -369,7 +369,7 @@ def run(chk, tier, seed):
     batch_only = 0
     package_calls = 0
     edge_max = 0.0
-    dup_max = 0.0
+    dup_max = {}
     states_total = 0
     for c in cfgs:
         k = ckey(c)
@@ -407,7 +407,7 @@ def run(chk, tier, seed):
                         chk.excluded += 1
                         continue
                     chk.case(f"{k}|{lab}", nontrivial=True, outcome="dup")
-                    dup_max = max(dup_max, dE, dF)
+                    dup_max[c["mode"]] = max(dup_max.get(c["mode"], 0.0), dE, dF)
                     if not same:
                         chk.harness_error(f"{k}: {lab} geometry differs from the tree geometry")
                     if max(dE, dF) > DUP_TOL[c["mode"]]:
@@ -476,6 +476,13 @@ def replay(payload):
     act = c["active"] if c["exc"] else None
     ref_state = states[_ref_index(states)]
     st = next(s for s in states if s["label"] == label)
+    if st["family"] == "dup":  # path independence: re-run the batch that holds the tree row and every non-tree row
+        ok = True
+        for lab, same, dE, dF in run_dup_task(dict(config=c, seed=seed))["pairs"]:
+            if lab == label:
+                print(f"  {ckey(c)} {lab}: same geometry {same}, dE={dE}, dF={dF} (tolerance {DUP_TOL[c['mode']]:g})")
+                ok = bool(same) and dE is not None and max(dE, dF) <= DUP_TOL[c["mode"]]
+        return ok
     ref = RG.evaluate(mol, [ref_state["coords"]], params, active_state=act)[0]
     o = RG.evaluate(mol, [st["coords"]], params, active_state=act)[0]
     bad = RG.compare(o, ref, st["Rrel"], TOL[c["mode"]])
